@@ -12,7 +12,7 @@ RULE = ("circuits of every kind the API hands out are generated and their instru
         "readout and compressed circuits for >= 1 constructed member of every (n, connectivity, LC class) [3 members for n<=5 "
         "in quick; 12 / 8 in thorough] and for the graph state every table entry itself stores; compressed circuits also for very "
         "cheap inputs that ignore the connectivity (Bell pair on a coupled pair moved by a SWAP between arbitrary qubits -- all of "
-        "them -- and 40 drawn short circuits with SWAPs anywhere per configuration); (b) all 744 MUB circuits; (c) Hypothesis: tomography and stabilizer-measurement "
+        "them -- 40 drawn short circuits with SWAPs anywhere, and the circuits of gen/sparsecirc that never touch some qubits, per configuration); (b) all 744 MUB circuits; (c) Hypothesis: tomography and stabilizer-measurement "
         "circuits on ordered m-subsets of N <= 8 qubits (only the instructions after the caller's preparation prefix, "
         "mapped back through the qubit list); (d) exhaustively: get_connectivity_graph for the 20 configurations vs. the "
         "transcribed edge table. A case is one returned circuit; non-trivial = contains >= 1 two-qubit gate and the "
@@ -265,6 +265,9 @@ def shard_cheap_inputs(arg):
                 a, b = rng.choice(edges)
                 ops.append([rng.choice(["cx", "cz"]), [a, b] if rng.random() < 0.5 else [b, a]])
         inputs.append(ops)
+    # circuits that leave part of the register untouched (Bell pairs, GHZ, lines, drawn sub-circuits on a subset of the qubits)
+    from gen import sparsecirc
+    inputs += [ops for _, ops in sparsecirc.sparse_circuits(n, seed, "c02idle", True)]
     L = libif.lib()
     for i, ops_in in enumerate(inputs):
         case = {"n": n, "connectivity": name, "kind": "compressed", "circuit": ops_in, "strings": []}
